@@ -36,13 +36,11 @@ func parseDump(dump string) []goBlock {
 
 const dbgFrame = "github.com/krotik/ecal/interpreter.(*ecalDebugger)."
 
+// blockedState: waiting on a lock or a condition variable. Goroutines waiting
+// on a channel, a timer or a select are not counted as blocked: those waits
+// end by themselves (e.g. the parser waiting for its lexer goroutine).
 func blockedState(s string) bool {
-	switch {
-	case strings.HasPrefix(s, "sync."), strings.HasPrefix(s, "semacquire"), strings.HasPrefix(s, "chan "),
-		s == "select", s == "sleep", strings.HasPrefix(s, "select "):
-		return true
-	}
-	return false
+	return strings.HasPrefix(s, "sync.") || strings.HasPrefix(s, "semacquire")
 }
 
 // lockStuck evaluates the stuck-state predicate on a goroutine dump: the
@@ -110,7 +108,7 @@ func callWatched(f func()) *callResult {
 			res.returned = true
 			return res
 		}
-		if pl.i > 300 && pl.i%50 == 0 {
+		if pl.i > 300 && (pl.i%50 == 0 || pl.i == 301 || pl.i == 321) {
 			if id := atomic.LoadUint64(&pg); id != 0 {
 				if ok, wit := lockStuck(fullDump(), id); ok {
 					stuckSeen++
